@@ -218,6 +218,10 @@ func ValidateSwComponents(scs []ISwComponent) error {
 	}
 
 	for i, sc := range scs {
+		if isNilComponent(sc) {
+			return fmt.Errorf("failed at index %d: %w: nil software component", i, ErrWrongSyntax)
+		}
+
 		if err := sc.Validate(); err != nil {
 			return fmt.Errorf("failed at index %d: %w", i, err)
 		}
